@@ -34,7 +34,7 @@ func (p *plugin) Config(
 	if err != nil {
 		return err
 	}
-	if p.Target.Name == "" {
+	if p.Target == nil || p.Target.Name == "" {
 		return fmt.Errorf("must specify the target name")
 	}
 	if p.Path == "" && p.JsonOp == "" {
